@@ -175,7 +175,7 @@ def run(ctx):
     ctx.coverage["case_kinds"] = {k: sum(1 for _, m in cases if m["kind"] == k) for k in ("valid", "trunc", "subst", "wc")}
     ctx.samples = [{"request": reqs[i][:160], "implementation": impl[i][:160]} for i in (0, len(reqs) // 2, len(reqs) - 1)]
     ctx.assumptions += ["oracle for malformed inputs is a necessary condition only (prefix delivered unchanged, error index consistent); exact acceptance is decided by the differential against the Lean parser model"]
-    return C.finish(ctx, level="proof", checker_cmd="lake build Rspirv.Props.C03 + #print axioms",
+    return C.finish(ctx, level="proof", checker_cmd="lake build Rspirv.Props.C03All + #print axioms",
                     rule="corpus (pre-fix OpSpecConstantOp defects first); seeded layout-ordered modules over all opcode classes, each also truncated at byte positions, with words replaced by boundary values and with every word count set to 0/1/+-1/0xffff; distinct non-trivial = distinct responses",
                     trusted=["hand model Parser.lean + differential harness", "translators"])
 
